@@ -73,6 +73,14 @@ def drive_(a, rng, opts=None, samples=None):
     rg, cleared = abstr.ragged_variant(ts.dump_tables(), rng)
     rout = rg.tree_sequence().simplify(samples, **kw).dump_tables()
     why = abstr.ragged_consistent(sts.dump_tables(), rout, cleared)
+    # the TableCollection entry point gives the same tables and the same node map
+    tfac = ts.dump_tables()
+    nm2 = tfac.simplify(samples, record_provenance=False, **kw)
+    t_ref = sts.dump_tables()
+    t_ref.provenances.clear()
+    tfac.provenances.clear()
+    if not why and not (tfac.equals(t_ref, ignore_provenance=True) and [int(x) for x in nm2] == [int(x) for x in nm]):
+        why = "TableCollection.simplify differs from TreeSequence.simplify on the same arguments"
     return dict(ts=ain, samples=list(samples), opts=o, out=aout, nm=[int(x) for x in nm], idem=idem, ragged_ok=0 if why else 1, ragged_why=why or "",
                 maps=[cmap.kind, tmap.kind, tmap.offset])
 
